@@ -1,7 +1,9 @@
 (* C06 — spectral densities are calibrated: power, bandwidth and scaling laws (statements only; GENERATED table) *)
 From Coq Require Import ZArith List Bool Reals.
-From SK Require Import Arith Cpx AttrThms.
-From SK.gen Require Import AttrsGen.
+From SK Require Import Arith Cpx AttrThms KernelPrims Kernels GenRef KernelLin.
+From SK.gen Require Import AttrsGen KernelsGen.
+Import ListNotations.
+Close Scope Z_scope.
 Section C06.
 Variable angle : R * R -> R. Variable unwrap : R -> R.
 Notation F := (FR angle unwrap).
@@ -19,8 +21,27 @@ Proof. intros. repeat split; [apply Gxx_scales|apply Gyy_scales|apply Gxy_scales
 Theorem C06_fs_relabelling : forall a (e : env RA), a <> 0%R -> e_fs e <> 0%R ->
   g_ENBW_auto RA F (relabel_env a e) = (a * g_ENBW_auto RA F e)%R /\ g_Gxx_auto RA F (relabel_env a e) = (g_Gxx_auto RA F e / a)%R.
 Proof. intros a e Ha Hf. split; [apply ENBW_relabel|apply Gxx_relabel; assumption]. Qed.
-(* PARTIAL: that the statistics themselves scale as XX -> c^2 XX, XY -> c d XY (kernel homogeneity) and the sinusoid
+(* the statistics themselves: scaling channel 1 by c and channel 2 by d scales what the regenerated Numba cross kernels
+   return by (c^2, d^2, c d, c d, (c d)^2), for every window, frequency, start vector and detrend mode *)
+Theorem C06_kernel_homogeneity_win : forall c d (x1 x2 w : list R) starts L omega,
+  gen_stats_win_only_csd RA cos sin (scaleL c x1) (scaleL d x2) starts L w omega =
+  let '(MXX, MYY, mur, mui, M2) := gen_stats_win_only_csd RA cos sin x1 x2 starts L w omega in
+  ((c * c * MXX)%R, (d * d * MYY)%R, (c * d * mur)%R, (c * d * mui)%R, ((c * d) * (c * d) * M2)%R).
+Proof. intros. rewrite !Gen_win_only_csd_ref. apply (ref_csd_scale _ _ (fun x => samp_win RA x w)). apply linear_samp_win. Qed.
+Theorem C06_kernel_homogeneity_detrend0 : forall c d (x1 x2 w : list R) starts L omega,
+  gen_stats_detrend0_csd RA cos sin (scaleL c x1) (scaleL d x2) starts L w omega =
+  let '(MXX, MYY, mur, mui, M2) := gen_stats_detrend0_csd RA cos sin x1 x2 starts L w omega in
+  ((c * c * MXX)%R, (d * d * MYY)%R, (c * d * mur)%R, (c * d * mui)%R, ((c * d) * (c * d) * M2)%R).
+Proof. intros. rewrite !Gen_detrend0_csd_ref. apply (ref_csd_scale _ _ (fun x => samp_mean0 RA x w L)). apply linear_samp_mean0. Qed.
+Theorem C06_kernel_homogeneity_poly : forall c d (x1 x2 w : list R) starts L omega Q,
+  gen_stats_poly_csd RA cos sin (scaleL c x1) (scaleL d x2) starts L w omega Q =
+  let '(MXX, MYY, mur, mui, M2) := gen_stats_poly_csd RA cos sin x1 x2 starts L w omega Q in
+  ((c * c * MXX)%R, (d * d * MYY)%R, (c * d * mur)%R, (c * d * mui)%R, ((c * d) * (c * d) * M2)%R).
+Proof. intros. rewrite !Gen_poly_csd_ref. apply (ref_csd_scale _ _ (fun x => samp_poly RA x w Q L)). apply linear_samp_poly. Qed.
+(* PARTIAL: the sinusoid response A^2/2 up to the window's leakage is checked by the calibration sweep, not proved here;
+   (superseded) that the statistics themselves scale as XX -> c^2 XX, XY -> c d XY (kernel homogeneity) and the sinusoid
    response A^2/2 up to the window's leakage are checked by the direct oracle / C01's definition, not restated here. *)
 End C06.
 Print Assumptions C06_power_spectrum.
 Print Assumptions C06_channel_scaling.
+Print Assumptions C06_kernel_homogeneity_poly.
